@@ -1321,7 +1321,19 @@ impl CodegenContext {
                             .into());
                     }
                     if let Some(seg) = self.try_current_segment_mut() {
-                        seg.set_pc(pc);
+                        // `*` is the address the code runs at. In a relocated segment (pc != start) the bytes are stored
+                        // somewhere else: there the assignment moves the storage position by the same distance
+                        let storage_pc = pc - seg.target_offset();
+                        if !(0..=0xffff).contains(&storage_pc) {
+                            return Err(Diagnostic::error()
+                                .with_message(format!(
+                                    "program counter ${:04X} lies outside the address space where the segment is stored",
+                                    pc
+                                ))
+                                .with_labels(vec![value.span.to_label()])
+                                .into());
+                        }
+                        seg.set_pc(storage_pc);
                     }
                 }
             }
